@@ -30,6 +30,8 @@ type FuncContract struct {
 	Requires  []*Clause
 	Ensures   []*Clause
 	Panics    *Clause // exact panic condition (nil: must not panic)
+	PanicsMay *Clause   // condition under which the function may (but need not) panic
+	Rejects   []*Clause // conditions under which the function never returns normally
 	MayPanic  bool    // callee may panic in unspecified circumstances (only for trusted externals/callbacks)
 	Modifies  []string
 	Loops     map[int][]*Clause
@@ -97,7 +99,7 @@ type Contracts struct {
 	Prelude []string // raw SMT text blocks from contract files (//@ smt ...)
 }
 
-var clauseHead = regexp.MustCompile(`^(func|extern|requires|ensures|panics|may_panic|modifies|loop|inline|trusted|pure|tags|ghost|let|global|lemma|axiom|fresh|unroll|noverify|calls|expect|smt|havoc_all|publishes|writes|fresh_obj|frame_only|borrows)\b(\[[^\]]*\])?\s*(.*)$`)
+var clauseHead = regexp.MustCompile(`^(func|extern|requires|ensures|panics_may|panics|rejects|may_panic|modifies|loop|inline|trusted|pure|tags|ghost|let|global|lemma|axiom|fresh|unroll|noverify|calls|expect|smt|havoc_all|publishes|writes|fresh_obj|frame_only|borrows)\b(\[[^\]]*\])?\s*(.*)$`)
 
 func loadContracts(files []string) (*Contracts, error) {
 	cs := &Contracts{Funcs: map[string]*FuncContract{}}
@@ -232,7 +234,7 @@ func (cs *Contracts) loadFile(path string) error {
 				return fmt.Errorf("%s: clause %s outside func", r.src, r.head)
 			}
 			switch r.head {
-			case "requires", "ensures", "panics":
+			case "requires", "ensures", "panics", "panics_may", "rejects":
 				lab, rest := splitLabel(r.rest)
 				cl := &Clause{Kind: r.head, Tags: tags, Label: lab, Src: r.src}
 				// ensures-local ghosts: "ghost ((c cty.Value)) :: term"
@@ -266,6 +268,13 @@ func (cs *Contracts) loadFile(path string) error {
 					c.Ensures = append(c.Ensures, cl)
 				case "panics":
 					c.Panics = cl
+				case "panics_may":
+					c.PanicsMay = cl
+				case "rejects":
+					if cl.Label == "" {
+						cl.Label = fmt.Sprintf("r%d", len(c.Rejects)+1)
+					}
+					c.Rejects = append(c.Rejects, cl)
 				}
 			case "borrows":
 				c.Borrows = append(c.Borrows, strings.Fields(r.rest)...)
